@@ -236,7 +236,8 @@ type HarnessRun struct {
 	Preemptions  int
 	RaceCheck    bool
 	Yields       map[int]bool // enabled hook points (nil = all)
-	QueryTimeout int
+	QueryTimeout int // one-shot budget per query (ms)
+	IncrTimeout  int // incremental budget per query (ms) before falling back to one-shot
 	Deadline     time.Time
 
 	ContinueAfterViolation bool
@@ -363,12 +364,13 @@ func (p *Program) Explore(h *HarnessRun, nworkers int, solverBin string) {
 		go func(id int) {
 			defer wg.Done()
 			wk := &Worker{id: id, T: term.NewTable(), funcs: map[*ssa.Function]int{}, stubs: map[*ssa.Function]int{}}
-			s, err := smt.New(solverBin, h.QueryTimeout)
+			s, err := smt.New(solverBin, h.IncrTimeout)
 			if err != nil {
 				h.noteInconclusive("cannot start solver: " + err.Error())
 				return
 			}
 			wk.S = s
+			s.FallbackMs = h.QueryTimeout
 			if lf := os.Getenv("VERIF_SMT_LOG"); lf != "" {
 				f, _ := os.Create(fmt.Sprintf("%s.%d", lf, id))
 				s.Log = f
